@@ -161,6 +161,16 @@ def r1_derived_tables_flushed(ctx):
 
 
 def r3_rebuild_from_nothing(ctx):
+    from . import entrygen
+
+    try:
+        entrygen.law(ctx, "regenerated")
+    except AnalysisError as e:
+        ctx.note(f"entry-point generator not interpretable ({e}); regeneration per build not decided")
+    _r3_rebuild_from_nothing(ctx)
+
+
+def _r3_rebuild_from_nothing(ctx):
     repo = ctx.repo
     oc = A.function_class(repo)
     build = A.build_method(repo)
